@@ -303,7 +303,11 @@ impl Prop for C14Typed {
                 1 => gen::castle_theme().prop_map(|r| gen::build(&r).fen()),
                 1 => gen::ep_theme().prop_map(|r| gen::build(&r).fen()),
             ],
-            prop::collection::vec(any::<u16>(), 0..40),
+            // mostly at or near the constructed position, sometimes deep into a game
+            prop_oneof![
+                3 => prop::collection::vec(any::<u16>(), 0..3),
+                2 => prop::collection::vec(any::<u16>(), 0..40),
+            ],
         )
             .prop_map(|(fen, sels)| TypedCase {
                 walk: gen::Walk { fen, sels },
@@ -311,7 +315,7 @@ impl Prop for C14Typed {
             .boxed()
     }
     fn cases(&self, tier: Tier) -> u32 {
-        tier.pick(64, 1_600)
+        tier.pick(96, 2_400)
     }
     fn max_shrink_iters(&self) -> u32 {
         200
